@@ -56,6 +56,7 @@ static long n_opened, n_closed;
 static long cur_op;                       /* index of the operation being executed (journal index) */
 static char cur_op_text[200];
 static long calls_in_op;                  /* wrapped calls made during the current operation */
+static long io_calls_in_op;               /* read/write calls on library descriptors during the current operation */
 static int foreign_close_fd = -1;
 
 static int tracked(int fd) { return fd >= 0 && fd < MAXFD && led[fd].open; }
@@ -116,7 +117,7 @@ ssize_t __wrap_read(int fd, void *buf, size_t n)
 {
     if (!tracked(fd)) return __real_read(fd, buf, n);
     int e0 = errno;
-    count_call("read");
+    count_call("read"); io_calls_in_op++;
     int kind = F_COMPLETE, scheduled = 0;
     if (rpos < rn) { kind = rsched[rpos++]; scheduled = 1; }
     else if (rand_fault_pct && (int) frnd(100) < rand_fault_pct) kind = frnd(2) ? F_SHORT : F_EINTR;
@@ -159,7 +160,7 @@ ssize_t __wrap_write(int fd, const void *buf, size_t n)
 {
     if (!tracked(fd)) return __real_write(fd, buf, n);
     int e0 = errno;
-    count_call("write");
+    count_call("write"); io_calls_in_op++;
     if (inj.write_errno && inj.write_skip-- <= 0) {
         int e = inj.write_errno;
         inj.write_errno = 0; inj.consumed++;
@@ -404,7 +405,7 @@ static void begin_op(const char *fmt, ...)
     va_list ap; va_start(ap, fmt); vsnprintf(cur_op_text, sizeof cur_op_text, fmt, ap); va_end(ap);
     vh_op("%s", cur_op_text);
     cur_op = n_ops++;
-    calls_in_op = 0;
+    calls_in_op = 0; io_calls_in_op = 0;
     foreign_close_fd = -1;
     wcapn = rcapn = 0;
 }
@@ -577,7 +578,8 @@ static int op_send(int i, const unsigned char *p, size_t n, int must_succeed)
     vh_evals(1);
     if (guard_write_block)
         vh_fail("send:would-block", "send of %zu bytes on %s kept writing until the socket buffer was full (%zu bytes written by this call)", n, objname(i), wcapn);
-    if (r) {
+    if (!io_calls_in_op) vh_count("send_without_write_calls", 1);      /* I/O not done through write(): nothing to compare locally */
+    else if (r) {
         if (wcapn != n || memcmp(wcap, p, n)) {
             size_t k = 0; while (k < n && k < wcapn && wcap[k] == p[k]) k++;
             vh_fail("send:bytes", "send of %zu bytes on %s returned TRUE but %zu bytes were written (first difference at offset %zu)", n, objname(i), wcapn, k);
@@ -600,7 +602,8 @@ static spif_str_t op_recv(int i)
     spif_str_t r = spif_socket_recv(objs[i].s);
     TRACE("-> %s, %zu bytes crossed", r ? "string" : "NULL", rcapn);
     vh_evals(1);
-    if (!r) {
+    if (r && !io_calls_in_op) vh_count("recv_without_read_calls", 1);  /* I/O not done through read(): nothing to compare locally */
+    else if (!r) {
         VH_CHECK(rcapn == 0, "recv:lost", "recv on %s returned NULL although %zu bytes were read from the descriptor", objname(i), rcapn);
     } else {
         const unsigned char *t = (const unsigned char *) SPIF_STR_STR(r);
